@@ -160,11 +160,22 @@ impl<'tcx> Extract<'tcx> {
         }
 
         let mut fns = Vec::new();
+        let mut consts = Vec::new();
         for owner in tcx.hir_body_owners() {
             let kind = tcx.def_kind(owner);
             match kind {
                 DefKind::Fn | DefKind::AssocFn => {
                     fns.push(self.fn_json(owner, &mut unsafes));
+                }
+                DefKind::Const { .. } | DefKind::AssocConst { .. } => {
+                    // value expression of a (module-level or associated) constant, so that the analyses can fold it
+                    let body = tcx.hir_body_owned_by(owner);
+                    let typeck = tcx.typeck(owner);
+                    let cx = BodyCx { ex: self, typeck, owner, unsafes: std::cell::RefCell::new(Vec::new()) };
+                    consts.push(J::obj(vec![
+                        ("def", s(tcx.def_path_str(owner.to_def_id()))),
+                        ("body", cx.expr(body.value)),
+                    ]));
                 }
                 DefKind::Closure => {}
                 _ => {}
@@ -189,6 +200,7 @@ impl<'tcx> Extract<'tcx> {
             ("unsafes", J::Arr(unsafes)),
             ("foreign_mods", J::Arr(foreign)),
             ("other_items", J::Arr(other_items)),
+            ("consts", J::Arr(consts)),
             ("fns", J::Arr(fns)),
             ("mir", J::Arr(mirs)),
         ])
